@@ -171,7 +171,7 @@ pub fn run(vec: &J, out: &mut Out, wk: &mut Worker) -> Result<(), String> {
             // arbitrary text (C09 / C08 REC): parse, print, re-parse
             let text = if vec.get("utf8").and_then(|b| b.as_bool()) == Some(false) { String::new() } else { text_of(&vec["text"])? };
             let r = parse_via(wk, &text);
-            out.emit(json!({"op":"filter.text","text":vec["text"],"src":vec["src"],"outcome":r["outcome"],"msg":r["msg"],"tree":r["tree"],
+            out.emit(json!({"op":"filter.text","text":vec["text"],"utf8":true,"src":vec["src"],"outcome":r["outcome"],"msg":r["msg"],"tree":r["tree"],
                 "printed":r["printed"],"reparse":r["reparse"]}));
             Ok(())
         }
